@@ -1,4 +1,5 @@
 import MontePyVerif.Props.C19
+import MontePyVerif.Props.C07Columns
 /-!
 # C07 — untouched inputs and tokens are written verbatim; edits stay local
 
